@@ -1184,13 +1184,13 @@ def run(ctx, driver):
     root = tempfile.mkdtemp(prefix="c09-", dir="/tmp")
     try:
         cases = corpus()
-        for _ in range(ctx.scale(300, 3000)):
+        for _ in range(ctx.scale(220, 3000)):
             cases.append(gen_kaldi_tracer(r))
-        for _ in range(ctx.scale(300, 3000)):
+        for _ in range(ctx.scale(220, 3000)):
             cases.append(gen_torch_tracer(r))
-        for _ in range(ctx.scale(40, 400)):
+        for _ in range(ctx.scale(30, 400)):
             cases.append(gen_kaldi_library(r))
-        for _ in range(ctx.scale(40, 400)):
+        for _ in range(ctx.scale(30, 400)):
             cases.append(gen_torch_library(r))
         done = []
         for case in cases:
@@ -1220,7 +1220,7 @@ def run(ctx, driver):
             if len(ctx.violations) > before and len(ctx.violations) <= 3:
                 shrink_last(ctx, root)
         # run-level clauses
-        k = ctx.scale(10, 80)
+        k = ctx.scale(8, 80)
         for i in range(k):
             if ctx.out_of_time():
                 break
